@@ -159,7 +159,7 @@ func C13() *engine.Check {
 	}
 	nonString := &engine.Sub{
 		Name:  "like-on-non-strings",
-		Rule:  "like with patterns {*, a*, \\*, empty} against every non-string IPLD kind must be false - on the value itself and reached through required / optional field selectors, bare, under and / all / any and behind an index; and against lists / maps of strings that each match the pattern, reached through iterator, slice and field selectors; non-trivial = all",
+		Rule:  "like with patterns {*, a*, \\*, empty} against every non-string IPLD kind - and schema-typed structs whose wire form is a string or a list - must be false - on the value itself and reached through required / optional field selectors, bare, under and / all / any and behind an index; and against lists / maps of strings that each match the pattern, reached through iterator, slice and field selectors; non-trivial = all",
 		Bound: func(string) string { return "3 patterns x 8 non-string values" },
 		Gen: func(tier string, emit func(any) bool) {
 			for _, p := range []string{"*", "a*", `\*`, ""} {
@@ -177,6 +177,8 @@ func C13() *engine.Check {
 			vals := map[string]datamodel.Node{
 				"int": literal.Int(1), "float": literal.Float(1.5), "bool": literal.Bool(true), "null": literal.Null(),
 				"bytes": literal.Bytes([]byte("a")), "list": lst, "map": mp, "link": literal.LinkCid(cidPool[0]),
+				// schema-typed values that are maps at the node interface, whatever text they are encoded as
+				"typed struct with a joined-string representation": typedNodes().sj, "typed struct with a tuple representation": typedNodes().tup,
 			}
 			for k, v := range vals {
 				ctx.Eval(1)
